@@ -2,6 +2,7 @@ package main
 
 import (
 	"fmt"
+	"strconv"
 	"go/ast"
 	"go/types"
 	"strings"
@@ -112,6 +113,33 @@ func (env *SpecEnv) btreeSpec(name string, n *ast.CallExpr) (SV, bool) {
 			panic("spec: " + err.Error())
 		}
 		return intSV(e.typeID(t)), true
+	case "wrap64":
+		return intSV(app(SInt, "wrap64", scal(env.eval(n.Args[0])))), true
+	case "tdiv":
+		return intSV(app(SInt, "tdiv", scal(env.eval(n.Args[0])), scal(env.eval(n.Args[1])))), true
+	case "same":
+		// identity of two values leaf by leaf (floats by bit pattern up to NaN payload: SMT =)
+		var la, lb []*Term
+		leaves(env.eval(n.Args[0]), &la)
+		leaves(env.eval(n.Args[1]), &lb)
+		var cs []*Term
+		for i := range la {
+			cs = append(cs, eq(la[i], lb[i]))
+		}
+		return boolSV(and(cs...)), true
+	case "isNaN":
+		return boolSV(app(SBool, "fp.isNaN", scal(env.eval(n.Args[0])))), true
+	case "isZeroF":
+		return boolSV(app(SBool, "fp.isZero", scal(env.eval(n.Args[0])))), true
+	case "exit":
+		// exit(call, "i", k): the k-th variable named i of the expanded function, in the state in which it returned
+		ex := env.expansionOf(n.Args[0])
+		nm, _ := strconv.Unquote(n.Args[1].(*ast.BasicLit).Value)
+		k := 1
+		if len(n.Args) > 2 {
+			k, _ = strconv.Atoi(n.Args[2].(*ast.BasicLit).Value)
+		}
+		return ex.local(nm, k), true
 	case "errmsg":
 		return &Scalar{T: errMsg(env.eval(n.Args[0]).(*IfaceV)), Ty: types.Typ[types.String]}, true
 	case "contains":
